@@ -33,16 +33,21 @@ def nid(name):
     return rc.enc_name(name)
 
 
-def sv_component(entries, kind='ok'):
-    """entries: list of (name-or-None, seq-or-None)."""
+def sv_component(entries, kind='ok', unknown=None):
+    """entries: list of (name-or-None, seq-or-None).  unknown: list of booleans - whether an unrecognised non-critical element (a
+    field of a newer protocol version) stands before entry i / after the last one."""
     body = b''
-    for nm, seq in entries:
+    for i, (nm, seq) in enumerate(entries):
+        if unknown and unknown[i % len(unknown)]:
+            body += rc.enc_tlv((0xF0, 0x3E8, 0xce)[i % 3], b'ext')
         e = b''
         if nm is not None:
             e += rc.enc_name(nm)
         if seq is not None:
             e += rc.enc_tlv(0xcc, rc.enc_nni(seq))
         body += rc.enc_tlv(0xca, e)
+    if unknown and unknown[-1]:
+        body += rc.enc_tlv(0xF0, b'')
     comp = rc.enc_tlv(0xc9, body)
     if kind == 'undecodable':
         comp = comp[:-1]
@@ -101,6 +106,9 @@ def gen_history(rng):
         else:
             evs.append(('advance', rng.choice(['before', 'past', 'past', 'small', 'at'])))
     evs.append(('advance', 'past'))
+    if rng.random() < 0.2:
+        eq = {'kind': 'equal', 'pick': [0.9] * 6, 'delta': [1] * 6, 'unknown': None}
+        evs += [('restart',), ('recv', eq), ('idle', 400), ('recv', gen_vector_spec(rng, nodes)), ('advance', 'past')]
     return {'nodes': nn, 'events': evs, 'last_used': rng.choice([0, 0, 0, 3, 3, 254, 65535, 2**32 - 2, 2**32 - 1, 2**32, 2**40 + 1]), 'publish_in_callback': rng.random() < 0.25,
             'pre_start_pubs': rng.choice([0, 0, 0, 1, 2])}
 
@@ -110,7 +118,7 @@ def gen_vector_spec(rng, nodes):
     kind = rng.choice(['newer', 'newer', 'older', 'equal', 'incomparable', 'unknown-node', 'self-too-much', 'self-ok',
                        'no-seq', 'no-id', 'undecodable', 'wrong-length', 'empty'])
     big = rng.random() < 0.08       # sequence numbers are 64-bit: some vectors jump across the 2**16 / 2**32 width boundaries
-    return {'kind': kind, 'pick': [rng.random() for _ in range(6)],
+    return {'kind': kind, 'pick': [rng.random() for _ in range(6)], 'unknown': [rng.random() < 0.5 for _ in range(4)] if rng.random() < 0.2 else None,
             'delta': [rng.choice([2**16 - 1, 2**16, 2**31, 2**32 - 1, 2**32, 2**32 + 7, 2**48]) if big and rng.random() < 0.6 else rng.randint(1, 3) for _ in range(6)]}
 
 
@@ -265,7 +273,9 @@ def execute(ctx, hist, rng):
             nerr = len(S.sentinel.all())
             if ev[0] in ('recv', 'pub-recv'):
                 ents, flags = resolve_vector(ev[1], model_local, self_seq, nodes)
-                comp = sv_component(ents, ev[1]['kind'])
+                comp = sv_component(ents, ev[1]['kind'], ev[1].get('unknown'))
+                if ev[1].get('unknown') and any(ev[1]['unknown']) and len(ents) > 1:
+                    ctx.event('vector-with-unknown-elements-between-entries')
                 name = BASE_PREFIX + [comp] + ([C(b'extra')] if flags['extra_comp'] else [])
                 wire = bytes(make_interest(name, InterestParam(nonce=ei + 1, lifetime=1000), b'', DigestSha256Signer(for_interest=True)))
                 before_real = dict(inst.local_sv)
@@ -396,6 +406,24 @@ def execute(ctx, hist, rng):
                         check_emission_content(p, w)
                     obligations.clear()
                     heard = None
+            elif ev[0] == 'restart':
+                # the same instance stopped and started again: what it has learnt stays (the vector never decreases)
+                inst.stop()
+                await asyncio.sleep(0)
+                try:
+                    inst.start(the_app)
+                except Exception as e:   # noqa
+                    R['viol'].append((f'restart-raises:{type(e).__name__}', f'{e!r}', w))
+                await asyncio.sleep(0.001)
+                take_emissions()
+                obligations.clear()
+                heard = None if inst.state != SvsState.SyncSuppression else (heard or [])
+                now_real = {k: v for k, v in inst.local_sv.items() if v}
+                if now_real != {k: v for k, v in model_local.items() if v}:
+                    R['viol'].append(('restart-changes-local-vector', 'after stop() and start() of the same instance the local state vector differs from what it was',
+                                      dict(w, local={k.hex(): v for k, v in now_real.items()}, expected={k.hex(): v for k, v in model_local.items()})))
+                ctx.event('instance-restarted')
+                R['pattern'].append('R')
             elif ev[0] == 'idle':
                 t_end = S.now_ms() + ev[1]
                 while S.now_ms() < t_end:
@@ -505,7 +533,7 @@ def run(ctx):
         svs_sync.secrets.randbits = orig
     for k in ('suppression-entered', 'vector-heard-during-suppression', 'suppression-expiry-needed', 'suppression-expiry-not-needed',
               'periodic-expiry', 'publication', 'vector-newer', 'vector-self-too-much', 'vector-no-seq', 'outdated-vector-answered',
-              'publication-next-to-reception', 'publication-before-start'):
+              'publication-next-to-reception', 'publication-before-start', 'instance-restarted', 'vector-with-unknown-elements-between-entries'):
         ctx.need_event(k)
     ctx.assumptions = ['when suppression is entered is read from the instance (not part of the statement)',
                        'a vector containing a malformed entry may be merged without that entry or ignored entirely',
